@@ -129,14 +129,14 @@ func refuse(n ast.Node, format string, args ...interface{}) {
 type class struct {
 	typeName   string
 	lockField  string
-	fields     []string            // all struct fields
-	mapFields  map[string]bool     // fields holding an internally locked ordered map (IPFSLog only)
-	guarded    map[string]bool     // derived: assigned outside constructors or mutated in place
-	ptrWritten map[string]bool     // assigned outside constructors
+	fields     []string                 // all struct fields
+	mapFields  map[string]bool          // fields holding an internally locked ordered map (IPFSLog only)
+	guarded    map[string]bool          // derived: assigned outside constructors or mutated in place
+	ptrWritten map[string]bool          // assigned outside constructors
 	methods    map[string]*ast.FuncDecl // methods with receiver *typeName
 	funcs      map[string]*ast.FuncDecl // package-level functions of the same files
-	returnsFld map[string]string   // method -> field whose value it returns (RawHeads -> heads)
-	ifaceNames map[string]bool     // interface type names by which "another instance" is passed
+	returnsFld map[string]string        // method -> field whose value it returns (RawHeads -> heads)
+	ifaceNames map[string]bool          // interface type names by which "another instance" is passed
 	// ordered-map method classification (for the IPFSLog class): name -> is writer
 	omapMethods map[string]bool
 }
@@ -458,10 +458,11 @@ type alias struct{ who, field string } // who: self|other ; field: field name (s
 type frame struct {
 	c        *class
 	fn       string
-	inst     map[string]string     // instance variables: name -> self|other
-	aliases  map[string]alias      // locals aliasing a guarded map
-	mutexes  map[string]bool       // local sync.Mutex / sync.RWMutex variables
-	wgs      map[string]bool       // local sync.WaitGroup variables
+	inst     map[string]string // instance variables: name -> self|other
+	aliases  map[string]alias  // locals aliasing a guarded map
+	byAssign map[string]bool   // alias names introduced by an assignment in this body (resolved per variable through aliasObjs)
+	mutexes  map[string]bool   // local sync.Mutex / sync.RWMutex variables
+	wgs      map[string]bool   // local sync.WaitGroup variables
 	closures map[string]*ast.FuncLit
 	captured map[string]bool // locals of the enclosing function shared with goroutines and written somewhere
 	shadow   map[string]bool // names declared inside the current closure (shadowing captured ones)
@@ -500,6 +501,13 @@ func (f *frame) aliasOf(e ast.Expr) (alias, bool) {
 		return f.aliasOf(x.X)
 	case *ast.Ident:
 		a, ok := f.aliases[x.Name]
+		if ok && x.Obj != nil && f.byAssign[x.Name] {
+			// an alias made by an assignment holds for that variable only, not for another
+			// variable of the same name declared in a different scope of the function
+			if _, same := aliasObjs[x.Obj]; !same {
+				return alias{}, false
+			}
+		}
 		return a, ok
 	case *ast.SelectorExpr:
 		if id, ok := x.X.(*ast.Ident); ok && f.inst[id.Name] == "self" && f.c.mapFields[x.Sel.Name] {
@@ -520,6 +528,20 @@ func (f *frame) aliasOf(e ast.Expr) (alias, bool) {
 		}
 	}
 	return alias{}, false
+}
+
+// variables (parser-resolved objects) that an assignment made an alias of a guarded map
+var aliasObjs = map[*ast.Object]bool{}
+
+func (f *frame) markAssigned(id *ast.Ident) {
+	if id.Obj == nil {
+		return
+	}
+	if f.byAssign == nil {
+		f.byAssign = map[string]bool{}
+	}
+	f.byAssign[id.Name] = true
+	aliasObjs[id.Obj] = true
 }
 
 func (f *frame) objEvent(a alias, write bool, n ast.Node) event {
@@ -964,6 +986,7 @@ func (f *frame) prescan(body *ast.BlockStmt) {
 						refuse(as, "%s: local %s aliases two different maps", f.fn, id.Name)
 					}
 					f.aliases[id.Name] = al
+					f.markAssigned(id)
 				}
 			}
 			if id, ok := as.Rhs[i].(*ast.Ident); ok {
@@ -973,6 +996,7 @@ func (f *frame) prescan(body *ast.BlockStmt) {
 							refuse(as, "%s: local %s aliases two different maps", f.fn, id.Name)
 						}
 						f.aliases[id.Name] = al
+						f.markAssigned(id)
 					}
 				}
 			}
@@ -1384,7 +1408,6 @@ func (f *frame) stmt1(s ast.Stmt, ps []pth) []pth {
 	refuse(s, "%s: unsupported statement %T", f.fn, s)
 	return nil
 }
-
 
 // ---------------------------------------------------------------------------------------------
 
